@@ -258,6 +258,85 @@ fn collect_strings(y: &Yaml, role: &str, out: &mut Vec<String>) {
     }
 }
 
+fn count_nodes(y: &Yaml) -> usize {
+    1 + match y {
+        Yaml::Sequence(s) => s.iter().map(count_nodes).sum::<usize>(),
+        Yaml::Mapping(m) => m.iter().map(|(k, v)| count_nodes(k) + count_nodes(v)).sum::<usize>(),
+        Yaml::Tagged(t) => count_nodes(&t.value),
+        _ => 0,
+    }
+}
+
+fn random_shape(rng: &mut Rng, old: &Yaml) -> Yaml {
+    match rng.below(16) {
+        0 => Yaml::Null,
+        1 => Yaml::Bool(rng.chance(1, 2)),
+        2 => Yaml::Number((*rng.pick(&[0i64, -1, 1, i64::MAX, i64::MIN])).into()),
+        3 => Yaml::Number(u64::MAX.into()),
+        4 => Yaml::Number((*rng.pick(&[f64::NAN, f64::INFINITY, -0.0, 1e308, 0.5])).into()),
+        5 => Yaml::String(String::new()),
+        6 => Yaml::String((*rng.pick(&["*", "?", "'", "i", "=", ">=", "not", "all(", "of(a,", "condition", "A and", "(", "~", "<<"])).to_owned()),
+        7 => Yaml::Sequence(vec![]),
+        8 => Yaml::Sequence(vec![old.clone()]),
+        9 => Yaml::Sequence(vec![old.clone(), Yaml::Null, Yaml::Number(1.into())]),
+        10 => Yaml::Mapping(serde_yaml::Mapping::new()),
+        11 => {
+            let mut m = serde_yaml::Mapping::new();
+            m.insert(old.clone(), old.clone());
+            Yaml::Mapping(m)
+        }
+        12 => Yaml::Tagged(Box::new(serde_yaml::value::TaggedValue { tag: serde_yaml::value::Tag::new("custom"), value: old.clone() })),
+        13 => {
+            let mut m = serde_yaml::Mapping::new();
+            m.insert(Yaml::Number(1.into()), old.clone());
+            m.insert(Yaml::Null, Yaml::String("x".into()));
+            Yaml::Mapping(m)
+        }
+        14 => Yaml::Sequence(vec![Yaml::Sequence(vec![Yaml::Sequence(vec![old.clone()])])]),
+        _ => Yaml::String("true".into()),
+    }
+}
+
+/// Replaces the `target`-th node (pre-order, keys included) by another shape.
+fn mutate_node(y: &mut Yaml, target: usize, i: &mut usize, rng: &mut Rng) -> bool {
+    if *i == target {
+        let new = random_shape(rng, y);
+        *y = new;
+        return true;
+    }
+    *i += 1;
+    match y {
+        Yaml::Sequence(s) => {
+            for v in s.iter_mut() {
+                if mutate_node(v, target, i, rng) {
+                    return true;
+                }
+            }
+        }
+        Yaml::Mapping(m) => {
+            let keys: Vec<Yaml> = m.keys().cloned().collect();
+            for k in keys {
+                // the key itself
+                let mut nk = k.clone();
+                if mutate_node(&mut nk, target, i, rng) {
+                    if let Some(v) = m.remove(&k) {
+                        m.insert(nk, v);
+                    }
+                    return true;
+                }
+                if let Some(v) = m.get_mut(&k) {
+                    if mutate_node(v, target, i, rng) {
+                        return true;
+                    }
+                }
+            }
+        }
+        Yaml::Tagged(t) => return mutate_node(&mut t.value, target, i, rng),
+        _ => {}
+    }
+    false
+}
+
 fn source_rule(seed: u64, run: u64) -> (String, String) {
     let mut kr = Rng::stream(seed, run, "KNOBS");
     let mut knobs = gen::Knobs::draw(&mut kr);
@@ -392,6 +471,22 @@ pub fn generate(kind: &str, seed: u64, run: u64, thorough: bool) -> Scenario {
             sc.strings = vec![damage_string(&mut fr, &s)];
             sc.note = role.to_owned();
             sc.origin = origin;
+        }
+        "shapes" => {
+            // structural damage: any node (or key) of a valid rule replaced by another YAML shape
+            let (text, origin) = source_rule(seed, run);
+            let mut y: Yaml = serde_yaml::from_str(&text).unwrap_or(Yaml::Null);
+            let mut fr = Rng::stream(seed, run, "STORAGE");
+            let n = 1 + fr.below(2);
+            for _ in 0..n {
+                let count = count_nodes(&y);
+                let target = fr.below(count.max(1));
+                let mut i = 0;
+                mutate_node(&mut y, target, &mut i, &mut fr);
+            }
+            sc.rule_text = serde_yaml::to_string(&y).unwrap_or_default();
+            sc.origin = origin;
+            sc.note = "shapes".to_owned();
         }
         "remnants" => {
             let a = REMNANT_ALPHABET.len() as u64;
@@ -616,8 +711,50 @@ fn exec_text(sc: &Scenario) -> Outcome {
     Outcome::of(&d, stats, vs)
 }
 
+fn exec_shapes(sc: &Scenario) -> Outcome {
+    let mut stats = Stats::default();
+    let mut d = Digest::new();
+    let mut vs = vec![];
+    tau_engine::verif::set_hash_seed(sc.seed ^ sc.run);
+    stats.inc("fault_yaml_shape_replaced");
+    let text = sc.rule_text.clone();
+    match guarded(|| Rule::from_str(&text)) {
+        Ok(r) => {
+            let class = outcome_class(&r);
+            stats.inc(&format!("outcome_{}", class));
+            d.str(class);
+            stats.seen("nontrivial", Digest::new().str("shape").str(class).str(&text).finish());
+        }
+        Err(p) => push_violation(
+            &mut vs,
+            Violation::new(
+                "load_panic",
+                format!("panic@{}", p.site().split(':').next().unwrap_or("")),
+                format!("Rule::from_str panicked at {}: {}\n--- text\n{}", p.loc, p.msg, text),
+            ),
+        ),
+    }
+    if let Ok(y) = serde_yaml::from_str::<Yaml>(&text) {
+        if let Err(p) = guarded(|| Rule::from_value(y).is_ok()) {
+            push_violation(
+                &mut vs,
+                Violation::new(
+                    "load_panic",
+                    format!("from_value:panic@{}", p.site().split(':').next().unwrap_or("")),
+                    format!("Rule::from_value panicked at {}: {}\n--- text\n{}", p.loc, p.msg, text),
+                ),
+            );
+        }
+    }
+    if stats.samples.is_empty() {
+        stats.samples.push(serde_json::json!({"kind": "shapes", "from": sc.origin, "text": text.chars().take(300).collect::<String>()}));
+    }
+    Outcome::of(&d, stats, vs)
+}
+
 pub fn execute(sc: &Scenario) -> Outcome {
     match sc.kind.as_str() {
+        "shapes" => exec_shapes(sc),
         "storage" | "truncate_all" | "lose_range_all" => exec_storage(sc),
         "text" | "remnants" => exec_text(sc),
         _ => Outcome::clean(&Digest::new(), Stats::default()),
